@@ -82,5 +82,16 @@ def main(argv):
         return cmd_one(rest)
     if cmd == "runjson":
         return cmd_runjson(rest)
+    if cmd == "genplan":
+        sys.stdout.write("PLAN " + json.dumps(gen_plan(rest[0], int(rest[1]), json.loads(os.environ.get("VERIF_OVERRIDES", "null")))) + "\n")
+        return 0
+    if cmd == "runplan":
+        from . import canon
+        plan = json.load(open(rest[0]))["plan"]
+        load_ops(plan["property"])
+        from . import isolate
+        res = isolate.execute(plan, want_refs=False)
+        sys.stdout.write("RUNJSON " + json.dumps([[r["id"], r["status"], canon.enc(r.get("result"))] for r in res["records"]]) + "\n")
+        return 0
     from . import driver
     return driver.main(cmd, rest)
